@@ -1485,3 +1485,34 @@ def batch_error_helpers(chk, P, prefix):
         sites.append(b.span)
         return True, "", sites
     chk.ob("%s.R4:BatchError" % prefix, "BatchError's constructors and conversions carry the remainder unchanged; map_retryable applies its function exactly once to it", f)
+
+
+def time_arithmetic(chk, P, prefix):
+    """Time arithmetic that can panic (`Duration - Duration`, `Instant + Duration`, ... through the operator traits) is used only at a
+    reasoned table of sites; remaining-time computations on the blocking paths saturate."""
+    ALLOW = {
+        ("emit_batcher::Delay::next", "Mul"): "current <= max (clamped every step), times 2",
+        ("emit_batcher::Delay::next", "Add"): "2*current + step with current <= max = 10 s",
+        ("<emit_core::and::And<T, U> as emit_core::emitter::Emitter>::blocking_flush", "Div"): "division by the constant 2",
+        ("emit_core::timestamp::Timestamp::to_system_time", "Add"): "UNIX_EPOCH + a timestamp below year 10000",
+    }
+
+    def f():
+        sites = []
+        for b in P.bodies.values():
+            if b.crate not in ("emit_batcher", "emit_otlp", "emit_file", "emit_core", "emit", "emit_term", "emit_traceparent"):
+                continue
+            for c in b.calls(normal_only=True):
+                tr = c.callee.get("trait") or ""
+                st = c.callee.get("self_ty") or ""
+                if tr.startswith("core::ops::arith::") and ("Duration" in st or "Instant" in st or "SystemTime" in st):
+                    op = tr.split("::")[-1].replace("Assign", "")
+                    root = (P.bodies.get(b.root_key) or b).key if b.root_key else b.key
+                    if (root, op) not in ALLOW and (b.key, op) not in ALLOW:
+                        return False, ("%s computes with `%s` on %s at %s: the operator panics on underflow/overflow (e.g. `timeout - elapsed` once "
+                                       "the elapsed time exceeds the timeout), so a blocking flush or send called with a short timeout would panic "
+                                       "instead of returning false / Err; use saturating_sub / checked arithmetic"
+                                       % (b.key, op, st.split("::")[-1], c.loc)), [], c.loc
+                    sites.append(c.loc)
+        return True, "", sites
+    chk.ob("%s.R5:time-arithmetic" % prefix, "no panicking Duration/Instant operator arithmetic outside a reasoned table (remaining-time computations saturate)", f)
